@@ -305,6 +305,11 @@ def one_run(hist, pool_names, off, inter, uni_kind='easy'):
             bad.append(('mined-block-fails-validation:' + '+'.join(sorted(tags) or ['node-only']) + '@clock=head%+d' % off,
                         "the block assembled and found at clock = head time %+d s fails %s" % (
                             off, ("full validation: " + ', '.join(sorted(tags))) if tags else ("the node's own validation: " + own_err))))
+            # ... and a block that fails validation at the node's clock must not have been adopted by the found-block handler
+            if bid in fb['cm_after'].block_by_hash or any(relay_count[i].get(bid, 0) for i in range(len(peers))):
+                bad.append(('invalid-found-block-adopted:' + '+'.join(sorted(tags) or ['node-only']),
+                            "the found block fails full validation at the node's clock (%s) but the found-block handler put it into "
+                            "the served chain state / broadcast it" % (', '.join(sorted(tags)) or own_err)))
         fees = 0
         try:
             for t in found.transactions[1:]:
@@ -412,7 +417,9 @@ def _worker(chunk):
 def run(ctx):
     # ---- the schedule dimension first (its workers are forked before this module's seams are installed): the
     #      found-block handler (miner thread) against the networking thread handling a delivery
-    thr = thrscen.run(ctx, 'MN', 1 if ctx.quick else 2, names=['found-vs-valid-sibling-delivery', 'found-vs-invalid-delivery', 'found-vs-transaction-delivery'], only=['C12:'])
+    thr = thrscen.run(ctx, 'MN', 1 if ctx.quick else 2, names=['found-vs-valid-sibling-delivery', 'found-vs-invalid-delivery', 'found-vs-transaction-delivery', 'request-vs-block-including-pending-tx'], only=['C12:'])
+    thr_c = thrscen.run(ctx, 'MNc', 2 if ctx.quick else 3, names=['found-vs-valid-sibling-delivery', 'found-vs-invalid-delivery', 'found-vs-transaction-delivery'], only=['C12:'])   # coarser points, one preemption more
+    ctx.cov['thread_schedules_coarse'] = thr_c
     ctx.cov['thread_schedules'] = thr
     cfgs, per_level = configs(ctx)
     ctx.log("ledger states per depth", per_level, "runs", len(cfgs))
